@@ -7,6 +7,7 @@ import (
 	"bufio"
 	"fmt"
 	"io"
+	"os"
 	"os/exec"
 	"strconv"
 	"strings"
@@ -28,6 +29,7 @@ type SolverStats struct {
 	Queries             int
 	CacheHits           int
 	ModelHits           int
+	Fallbacks           int
 	Time                time.Duration
 	Errors              []string
 }
@@ -49,6 +51,10 @@ type Solver struct {
 
 func newSolver(cmdline []string, timeoutMs int) *Solver {
 	s := &Solver{cmdline: cmdline, timeoutMs: timeoutMs, cache: map[string]Result{}}
+	if d := os.Getenv("VERIF_SOLVER_LOG"); d != "" {
+		f, _ := os.CreateTemp(d, "session-*.smt2")
+		s.log = f
+	}
 	s.start()
 	return s
 }
@@ -196,7 +202,7 @@ func (s *Solver) check(conj []*Term, wantModel bool) (Result, *Model) {
 		s.stats.CacheHits++
 		return r, nil
 	}
-	if s.nDefs > 400000 {
+	if s.nDefs > 200000 {
 		s.close()
 		s.start()
 	}
@@ -241,6 +247,27 @@ func (s *Solver) check(conj []*Term, wantModel bool) (Result, *Model) {
 	default:
 		res = Unknown
 		s.stats.Unknown++
+	}
+	if res == Unknown {
+		// the incremental core can be weaker than a fresh solver on div/mod-heavy
+		// queries: retry the standalone script on a portfolio of fresh solvers
+		script := standaloneScript(conj)
+		for _, alt := range [][]string{{"z3-new", "-in", "-T:" + strconv.Itoa(s.timeoutMs/1000*3+10)}, {"z3", "-in", "-T:" + strconv.Itoa(s.timeoutMs/1000*3+10)}, {"cvc5", "--lang=smt2"}} {
+			out, err := oneShot(alt, script, time.Duration(s.timeoutMs)*3*time.Millisecond+10*time.Second)
+			s.stats.Fallbacks++
+			if err == nil && out == "unsat" {
+				res = Unsat
+				s.stats.Unknown--
+				s.stats.Unsat++
+				break
+			}
+			if err == nil && out == "sat" && !wantModel {
+				res = Sat
+				s.stats.Unknown--
+				s.stats.Sat++
+				break
+			}
+		}
 	}
 	var model *Model
 	if res == Sat && wantModel {
